@@ -113,7 +113,22 @@ var NegSnippets = []NegSnippet{
 	neg("mismatch", "keys", "deriveKeysNeg", "", "func negUse(l []int) { _ = deriveKeysNeg(l) }"),
 	neg("mismatch", "set", "deriveSetNeg", "", "func negUse(m map[int]int) { _ = deriveSetNeg(m) }"),
 	neg("mismatch", "do", "deriveDoNeg", "", "func negUse(f func() int, g func() (int, error)) { _, _, _ = deriveDoNeg(f, g) }"),
-	neg("mismatch", "dup", "deriveDupNeg", "", "func negUse(c chan<- int) { _, _ = deriveDupNeg(c) }"),
+	neg("mismatch", "dup", "deriveDupNeg", "chan<- int", "func negUse(c chan<- int) { _, _ = deriveDupNeg(c) }"),
+	neg("mismatch", "fmap", "deriveFmapNeg", "chan<- int", "func negUse(c chan<- int) { _ = deriveFmapNeg(func(i int) string { return \"\" }, c) }"),
+	neg("mismatch", "join", "deriveJoinNeg", "chan<- int", "func negUse(a chan int, b chan<- int) { _ = deriveJoinNeg(a, b) }"),
+	neg("mismatch", "join", "deriveJoinNeg", "[]chan<- int", "func negUse(a []chan<- int) { _ = deriveJoinNeg(a) }"),
+	neg("mismatch", "join", "deriveJoinNeg", "chan chan<- int", "func negUse(a chan chan<- int) { _ = deriveJoinNeg(a) }"),
+	neg("mismatch", "join", "deriveJoinNeg", "chan<- chan int", "func negUse(a chan<- chan int) { _ = deriveJoinNeg(a) }"),
+	neg("mismatch", "pipeline", "derivePipelineNeg", "chan<- int", "func negUse(f func(int) chan<- int, g func(int) <-chan string) { _ = derivePipelineNeg(f, g) }"),
+	// channel directions that are supported: the generated parameter must accept the argument as written
+	neg("chandir", "join", "deriveJoinNeg", "chan chan int", "func negUse(a chan chan int) { _ = deriveJoinNeg(a) }"),
+	neg("chandir", "join", "deriveJoinNeg", "<-chan chan int", "func negUse(a <-chan chan int) { _ = deriveJoinNeg(a) }"),
+	neg("chandir", "join", "deriveJoinNeg", "chan (<-chan int)", "func negUse(a chan (<-chan int), b <-chan (<-chan string)) { _, _ = deriveJoinNeg(a), deriveJoinNeg2(b) }"),
+	neg("chandir", "join", "deriveJoinNeg", "[]<-chan int", "func negUse(a []<-chan int, b []chan int, c chan int, d <-chan int) { _, _, _ = deriveJoinNeg(a), deriveJoinNeg2(b), deriveJoinNeg3(c, d) }"),
+	neg("chandir", "fmap", "deriveFmapNeg", "<-chan int", "func negUse(a <-chan int, b chan int) { f := func(i int) string { return \"\" }; _, _ = deriveFmapNeg(f, a), deriveFmapNeg2(f, b) }"),
+	neg("chandir", "dup", "deriveDupNeg", "<-chan int", "func negUse(a <-chan int, b chan string) { _, _ = deriveDupNeg(a); _, _ = deriveDupNeg2(b) }"),
+	neg("chandir", "pipeline", "derivePipelineNeg", "chan int", "func negUse(f func(int) chan int, g func(int) <-chan string) { _ = derivePipelineNeg(f, g) }"),
+	neg("chandir", "pipeline", "derivePipelineNeg", "chan string", "func negUse(f func(int) <-chan int, g func(int) chan string, h func(int) chan int) { _, _ = derivePipelineNeg(f, g), derivePipelineNeg2(h, g) }"),
 	neg("mismatch", "pipeline", "derivePipelineNeg", "", "func negUse(f func(int) <-chan string, g func(int) <-chan int) { _ = derivePipelineNeg(f, g) }"),
 	// variadic signatures
 	neg("variadic", "curry", "deriveCurryNeg", "...string", "func negUse(f func(a int, b ...string) int) { _ = deriveCurryNeg(f) }"),
@@ -197,6 +212,7 @@ var NegSnippets = []NegSnippet{
 var unsupportedFieldTypes = []*Ty{
 	Chan("both", Basic("int")), {K: "func"}, {K: "iface"}, {K: "unsafeptr"},
 	Map(Basic("string"), Chan("recv", Basic("int"))), Slice(&Ty{K: "func"}), Ptr(&Ty{K: "iface"}), Array(2, Chan("both", Basic("bool"))),
+	Ptr(Chan("both", Basic("int"))), Ptr(Ptr(&Ty{K: "func"})), Map(Basic("string"), Ptr(Chan("both", Basic("int")))), Slice(Ptr(&Ty{K: "func"})),
 }
 
 // SpliceNegative adds one unsupported constituent to the world and returns
@@ -280,6 +296,36 @@ func init() {
 				body = "func negUse(a " + pos + ") { _ = " + name + "(a) }"
 			}
 			NegSnippets = append(NegSnippets, NegSnippet{Kind: "broken", Plugin: pl, Call: name, Type: pos, Text: "package p\n\n" + body + "\n"})
+		}
+	}
+}
+
+// chan / func / interface behind every type constructor, as the argument type
+// of every structural plugin: the unsupported constituent must be found (and
+// reported) however deep it sits.
+func init() {
+	leaves := [][2]string{{"chanfunc", "chan int"}, {"chanfunc", "func()"}, {"iface", "interface{ M() }"}}
+	wraps := []string{"*%s", "**%s", "[]%s", "[2]%s", "map[string]%s", "map[string]*%s", "*[]%s", "struct{ A %s }", "*struct{ A *%s }", "[]*%s", "map[int][]%s"}
+	plugins := []string{"equal", "compare", "hash", "clone", "deepcopy", "gostring"}
+	for _, pl := range plugins {
+		for _, lf := range leaves {
+			for _, wr := range wraps {
+				T := fmt.Sprintf(wr, lf[1])
+				name := PluginPrefix[pl] + "NegW"
+				body := ""
+				switch pl {
+				case "equal", "compare":
+					body = fmt.Sprintf("func negUse(a, b %s) { _ = %s(a, b) }", T, name)
+				case "deepcopy":
+					if wr[0] != '*' && wr[0] != '[' && wr[0] != 'm' || wr[:2] == "[2" {
+						continue // deepcopy takes pointers, slices and maps
+					}
+					body = fmt.Sprintf("func negUse(a, b %s) { %s(a, b) }", T, name)
+				default:
+					body = fmt.Sprintf("func negUse(a %s) { _ = %s(a) }", T, name)
+				}
+				NegSnippets = append(NegSnippets, neg(lf[0], pl, name, lf[1], body))
+			}
 		}
 	}
 }
